@@ -24,6 +24,37 @@ def framed_manager(facts):
     return fr, pl
 
 
+def one_index(facts, framed):
+    """(site, instance, ok, detail, nontrivial) per definition-emitting path of the framed manager's printer methods: the binder's
+    number, the frame tag written inside the printer and the table entry are one and the same counter value, and the tag is the
+    two-digit hexadecimal character literal of it. Shared with C11 (the name must be bound to the printer that carries its own tag)."""
+    out = []
+    for meth in ("get_printer", "get_file_printer"):
+        for p in mgr.paths(facts, framed, meth):
+            if not p.pushes:
+                continue
+            site = "%s::%s" % (framed, meth)
+            ins = [kv for fld, kv in p.inserts if fld == "printers"]
+            ok1 = False
+            det = "pushes %s" % [t for _, t, _, _ in p.pushes]
+            if len(p.pushes) == 1 and len(ins) == 1:
+                fld, text, toks, forms = p.pushes[0]
+                form = forms[0] if forms and isinstance(forms[0], list) else None
+                bm = mgr.NAME.fullmatch(form[0]) if form and isinstance(form[0], str) else None
+                tags = [t for t in toks if t.startswith("#\\x")]
+                if bm and len(tags) == 1:
+                    tagidx = tags[0][3:]
+                    name_i = mgr.idx_of(bm.group(2))
+                    tag_i = mgr.idx_of(tagidx)
+                    val_i = mgr.idx_of("{" + ins[0][1] + "}") if not ins[0][1].isdigit() else (None, int(ins[0][1]))
+                    ok1 = name_i == tag_i == val_i and name_i[0] == "v" and bm.group(1) == "print"
+                    det = "binder index %s, frame tag %s, table value %s (must be one value read before the bump)" % (name_i, tag_i, val_i)
+                    spec_ok = tagidx.endswith(":02x}")
+                    out.append((site, "tag is rendered as a character literal #\\xHH of the index", spec_ok, "tag literal %s" % tags[0], False))
+            out.append((site, "name, tag and table entry are the same index [%s]" % (p.cond or "")[:40], ok1, det, True))
+    return out
+
+
 def run(c, facts, tier):
     c.trusted = ["E1 extractor", "emission interpreter", "spec/frames.json (statement of the property)"]
     c.explanation = (
@@ -141,29 +172,8 @@ def run(c, facts, tier):
                 c.ob("C10.returned", "%s::%s" % (M, meth), "[%s]" % (p.cond or "unconditional")[:70], ok, det, witness="-fprint a.out -fprint0 a.out" if ok is False else None)
     # C10.one-index on the framed manager
     if framed:
-        for meth in ("get_printer", "get_file_printer"):
-            for p in mgr.paths(facts, framed, meth):
-                if not p.pushes:
-                    continue
-                site = "%s::%s" % (framed, meth)
-                ins = [kv for fld, kv in p.inserts if fld == "printers"]
-                ok1 = False
-                det = "pushes %s" % [t for _, t, _, _ in p.pushes]
-                if len(p.pushes) == 1 and len(ins) == 1:
-                    fld, text, toks, forms = p.pushes[0]
-                    form = forms[0] if forms and isinstance(forms[0], list) else None
-                    bm = mgr.NAME.fullmatch(form[0]) if form and isinstance(form[0], str) else None
-                    tags = [t for t in toks if t.startswith("#\\x")]
-                    if bm and len(tags) == 1:
-                        tagidx = tags[0][3:]
-                        name_i = mgr.idx_of(bm.group(2))
-                        tag_i = mgr.idx_of(tagidx)
-                        val_i = mgr.idx_of("{" + ins[0][1] + "}") if not ins[0][1].isdigit() else (None, int(ins[0][1]))
-                        ok1 = name_i == tag_i == val_i and name_i[0] == "v" and bm.group(1) == "print"
-                        det = "binder index %s, frame tag %s, table value %s (must be one value read before the bump)" % (name_i, tag_i, val_i)
-                        spec_ok = tagidx.endswith(":02x}")
-                        c.ob("C10.one-index", site, "tag is rendered as a character literal #\\xHH of the index", spec_ok, "tag literal %s" % tags[0], nontrivial=False)
-                c.ob("C10.one-index", site, "name, tag and table entry are the same index [%s]" % (p.cond or "")[:40], ok1, det)
+        for site, inst, okx, det, nt in one_index(facts, framed):
+            c.ob("C10.one-index", site, inst, okx, det, nontrivial=nt)
         # inverse table
         pk = codegen.mgr_key(facts, framed, "printer_map")
         # the table returned is the printer registry turned around: one entry (index, destination) per registered printer,
